@@ -52,6 +52,9 @@ RAISE_KINDS = {
 DEFAULT_RAISE = ['raise_before', 'raise_after_log', 'bad_type']
 
 
+C_LOCALE = {'LC_ALL': 'C', 'LANG': 'C', 'PYTHONUTF8': '0', 'PYTHONCOERCECLOCALE': '0'}
+
+
 def make_spec(kind, variant, rng):
     pkg = 'labf_' + ''.join(rng.choice('abcdefgh') for _ in range(8))
     grp = [None, 'g', 'g:h'][variant % 3]
@@ -77,7 +80,7 @@ def mutating(fs):
     return [e for e in fs if e[0] != 'open_r']
 
 
-def check_after(lab, ref, root, tname, res, witness, what, data_dir, expect_error_dir=None, first=True, continues_tmp=None):
+def check_after(lab, ref, root, tname, res, witness, what, data_dir, expect_error_dir=None, first=True, continues_tmp=None, env_extra=None):
     """fresh process: what does a later chain see?"""
     t = ref.tasks[tname]
     steps = [{'op': 'build', 'chain': 'c', 'root': root}, {'op': 'snapshot', 'chain': 'c', 'light': True},
@@ -86,7 +89,7 @@ def check_after(lab, ref, root, tname, res, witness, what, data_dir, expect_erro
              # later still: the result is deleted on request and not recomputed by that chain; nothing of the faulted execution may come back
              {'op': 'force', 'chain': 'c2', 'tasks': [tname], 'delete_data': True},
              {'op': 'build', 'chain': 'c3', 'root': root}, {'op': 'snapshot', 'chain': 'c3', 'light': True}, {'op': 'value', 'chain': 'c3', 'task': tname}]
-    r = lab.run(steps, data_dir=data_dir)
+    r = lab.run(steps, data_dir=data_dir, env_extra=env_extra)
     prob = session_problem(r)
     if prob:
         res.inconclusive.append(prob)
@@ -156,7 +159,24 @@ def mech_of(kind, what):
     return None
 
 
-def enumerate_faults(kind, mode, variant, rng, res: CaseResult):
+def enumerate_faults(kind, mode, variant, rng, res: CaseResult, tmp_other_fs=False):
+    other_tmp = None
+    if tmp_other_fs:
+        # the system's temporary directory lives on another file system than the data directory (a rename between them is impossible)
+        import os
+        import tempfile
+        if not os.path.isdir('/dev/shm') or os.stat('/dev/shm').st_dev == os.stat(tempfile.gettempdir()).st_dev or not os.access('/dev/shm', os.W_OK):
+            res.count('no_second_file_system_available')
+            return
+        other_tmp = tempfile.mkdtemp(prefix='tcv-tmp-', dir='/dev/shm')
+    try:
+        _enumerate_faults(kind, mode, variant, rng, res, other_tmp)
+    finally:
+        if other_tmp:
+            shutil.rmtree(other_tmp, ignore_errors=True)
+
+
+def _enumerate_faults(kind, mode, variant, rng, res: CaseResult, other_tmp=None):
     spec, root = make_spec(kind, variant, rng)
     ref = Ref(spec, root)
     assert ref.error is None, ref.error
@@ -165,6 +185,10 @@ def enumerate_faults(kind, mode, variant, rng, res: CaseResult):
     forced = mode == 'forced'
     base_witness = {'kind': kind, 'mode': mode, 'variant': variant, 'spec': spec, 'root': root}
     with Lab(spec) as lab:
+        if other_tmp:
+            lab.sess_env = {'TMPDIR': other_tmp}
+            base_witness['TMPDIR'] = 'on another file system (/dev/shm) than the data directory'
+            res.count('executions_with_tmpdir_on_another_file_system')
         golden = lab.root / 'golden'
         pre = [{'op': 'build', 'chain': 'c', 'root': root}, {'op': 'value', 'chain': 'c', 'task': slug}]
         # the state before the faulted execution: empty store (first) or complete result present (forced)
@@ -340,6 +364,40 @@ def enumerate_faults(kind, mode, variant, rng, res: CaseResult):
                 stray = [p_ for p_ in (d / refscheme.rel_dir(t['slug'])).glob('*_tmp*')] if (d / refscheme.rel_dir(t['slug'])).exists() else []
                 if kind in ('dir', 'empty_dir') and retry['ok'] and stray:
                     res.violate(f'{what}: work directories left behind after the successful retry: {[s_.name for s_ in stray]}', witness=witness, facts={'tag': 'stray_workdir'})
+        # ---- (e) the result holds text that the process's locale encoding cannot express (interpreter started with the C locale) ------------------
+        if kind in ('json_dict', 'json_list', 'str', 'generator'):
+            d = fresh_dir('locale')
+            steps = faulted_steps([{'op': 'arm_fault', 'chain': 'c', 'task': slug, 'kind': 'non_ascii'}]) + [{'op': 'disarm', 'chain': 'c'}, {'op': 'locale'}]
+            r = lab.run(steps, data_dir=d, env_extra=C_LOCALE)
+            enc = (r.get('steps') or [{}])[-1].get('encoding') if not session_problem(r) else None
+            if session_problem(r) or not enc or enc.lower().replace('-', '') == 'utf8':
+                res.inconclusive.append(f'could not run a session in a non-UTF-8 locale: {session_problem(r) or enc}')
+            else:
+                res.count('non_ascii_results_in_c_locale')
+                attempt = r['steps'][-3]
+                what = f'{kind} ({mode}): result with non-ASCII text, computed by a process whose locale encoding is {enc}'
+                witness = dict(base_witness, fault=['non_ascii', enc], env=C_LOCALE)
+                if not attempt['ok']:
+                    # storing failed: nothing (new) may be visible, later processes of the same locale compute the ordinary result
+                    res.count('non_ascii_store_refused')
+                    check_after(lab, ref, root, slug, res, witness, what + ' (storing failed; later chain, same locale)', d, env_extra=C_LOCALE)
+                else:
+                    # stored: then a later chain in the same locale finds it and loads the very value the computing chain returned
+                    r2 = lab.run([{'op': 'build', 'chain': 'c', 'root': root}, {'op': 'snapshot', 'chain': 'c', 'light': True}, {'op': 'value', 'chain': 'c', 'task': slug}],
+                                 data_dir=d, env_extra=C_LOCALE)
+                    if session_problem(r2):
+                        res.inconclusive.append(session_problem(r2))
+                    else:
+                        o2 = r2['steps']
+                        has = o2[0]['ok'] and o2[1]['ok'] and o2[1]['snapshot']['tasks'][slug].get('has_data')
+                        if not has:
+                            res.violate(f'{what}: the computation returned a value but a later chain sees no result', witness=witness, facts={'tag': 'locale_lost'})
+                        elif not o2[2]['ok']:
+                            res.violate(f'{what}: the computation returned normally and a later chain of the same locale reports has_data, but loading fails: '
+                                        f'{o2[2].get("exc")}: {str(o2[2].get("msg"))[:160]}', witness=witness, facts={'tag': 'visible_unreadable'})
+                        elif o2[2]['vdigest'] != attempt['vdigest']:
+                            res.violate(f'{what}: a later chain of the same locale loads another value than the computing chain returned', witness=witness,
+                                        facts={'tag': 'visible_partial'})
     if res.sample is None:
         res.sample = {'kind': kind, 'mode': mode, 'events': events[:12]}
 
@@ -417,7 +475,7 @@ def run_case(case) -> CaseResult:
     if case.get('strace'):
         strace_crosscheck(case['kind'], case['variant'], rng, res)
         return res
-    enumerate_faults(case['kind'], case['mode'], case['variant'], rng, res)
+    enumerate_faults(case['kind'], case['mode'], case['variant'], rng, res, tmp_other_fs=case.get('tmp_other_fs', False))
     vc = res.extra.setdefault('violation_classes', {})
     for v in res.violations:
         f = (v.get('witness') or {}).get('fault') or ['?']
@@ -433,6 +491,11 @@ def cases(tier, seed):
         for kind in KINDS:
             for mode in ('first', 'forced'):
                 yield {'kind': kind, 'mode': mode, 'variant': v, 'seed': rng.randrange(1 << 30)}
+    # the same enumeration with the system's temporary directory on another file system than the data directory
+    for kind in (KINDS if tier == 'thorough' else ['json_dict', 'numpy', 'pandas', 'generator', 'listnp', 'dir']):
+        if kind in KINDS:
+            for mode in (('first', 'forced') if tier == 'thorough' else (rng.choice(['first', 'forced']),)):
+                yield {'kind': kind, 'mode': mode, 'variant': 1, 'seed': rng.randrange(1 << 30), 'tmp_other_fs': True}
     # audit hook vs strace (one per data class; the quick tier runs three of them)
     for kind in (KINDS if tier == 'thorough' else ['json_dict', 'numpy', 'dir']):
         yield {'strace': True, 'kind': kind, 'variant': 1, 'seed': rng.randrange(1 << 30)}
